@@ -171,6 +171,78 @@ pub fn corr(ctx: &mut Ctx) {
     ctx.write_stats(&st);
 }
 
+/// `filter_image(strategy, true)` on an image with an alpha channel: reconstruct by the specification and compare with
+/// the original pixel by pixel - alpha identical everywhere, colour identical wherever alpha is not zero.
+fn alpha_kept_check(img: &HImg, strat: u8, class: &str, st: &mut Stats) {
+    let oxi = img.to_oxi();
+    let Some(fa) = catch(|| oxi.filter_image(rf(strat), true)) else {
+        st.fail("panic", format!("filter_image({strat}, alpha) panicked"), format!("{{\"img\": {}}}", jstr(&img.to_line())));
+        return;
+    };
+    let bpp = img.bpp_bytes();
+    let ch = crate::img::channels(img.ct);
+    let bps = bpp / ch;
+    let (mut off, mut prior, mut last_pass, mut first) = (0usize, Vec::<u8>::new(), None, true);
+    st.count("alpha_strategy_checks");
+    for (row, (pass, _, line)) in img.lines().into_iter().enumerate() {
+        let len = line.len();
+        if off + 1 + len > fa.len() || fa[off] > 4 {
+            st.fail("alpha-line", format!("filter_image({strat}, alpha): row {row} is cut short or has an illegal filter byte"), format!("{{\"img\": {}}}", jstr(&img.to_line())));
+            return;
+        }
+        if first || pass != last_pass {
+            prior = vec![0; len];
+            last_pass = pass;
+            first = false;
+        }
+        let rec = recon_row_ref(fa[off], bpp, &fa[off + 1..off + 1 + len], &prior);
+        for (k, (a, b)) in line.chunks(bpp).zip(rec.chunks(bpp)).enumerate() {
+            let (aa, ab) = (&a[bpp - bps..], &b[bpp - bps..]);
+            let transparent = aa.iter().all(|x| *x == 0);
+            if aa != ab || (!transparent && a != b) {
+                st.fail(
+                    "alpha-image",
+                    format!("filter_image(strategy {strat}, alpha) changes {} of pixel {k} in row {row} ({class}): {:?} -> {:?}", if aa != ab { "the alpha" } else { "the visible colour" }, a, b),
+                    format!("{{\"op\": \"filter_image_alpha\", \"strategy\": {}, \"img\": {}}}", strat, jstr(&img.to_line())),
+                );
+                return;
+            }
+        }
+        prior = rec;
+        off += 1 + len;
+    }
+}
+
+/// Pictures on which vertical prediction pays (a random colour per column, a fixed step per row) with runs of fully
+/// transparent pixels above and beside visible ones: there a heuristic strategy picks Sub / None on one row and
+/// Up / Average / Paeth on the next, so the row it predicts from must be the rewritten one
+fn vertical_alpha_image(rng: &mut Rng) -> HImg {
+    use crate::img::*;
+    let ct = *rng.choose(&[6u8, 6, 4]);
+    let depth = *rng.choose(&[8u8, 8, 16]);
+    let (w, h) = (rng.range(8, 64) as u32, rng.range(3, 16) as u32);
+    let c = channels(ct);
+    let max = if depth == 16 { 65535u32 } else { 255 };
+    let col: Vec<Vec<u32>> = (0..w).map(|_| (0..c - 1).map(|_| rng.next_u64() as u32 % (max + 1)).collect()).collect();
+    let step: Vec<u32> = (0..c - 1).map(|_| rng.range(0, 9) as u32).collect();
+    let mut samples = Vec::with_capacity((w * h) as usize * c);
+    let density = rng.range(5, 40);
+    for y in 0..h {
+        let mut run = 0u32;
+        for x in 0..w {
+            if run == 0 && rng.below(100) < density { run = rng.range(1, 6) as u32; }
+            let transparent = run > 0;
+            if run > 0 { run -= 1; }
+            for k in 0..c - 1 {
+                let v = if transparent { rng.next_u64() as u32 % (max + 1) } else { (col[x as usize][k] + step[k] * y) % (max + 1) };
+                samples.push(v as u16);
+            }
+            samples.push(if transparent { 0 } else { max as u16 });
+        }
+    }
+    Grid { w, h, ct, depth, palette: vec![], trns: None, samples }.pack(rng.chance(1, 5))
+}
+
 /// Image-level oracle: for each of the ten strategies the stream written by `filter_image`
 /// uses only filter types 0-4, has the header-implied size and reconstructs (reference decoder in
 /// this crate, written from the specification) to exactly the image data.
@@ -288,6 +360,11 @@ pub fn oracle(ctx: &mut Ctx) {
                 st.fail("panic", format!("filter_image({strat}, alpha) panicked"), replay.clone());
             }
         }
+        // C03 / C19 for every strategy with the alpha rewrite on: what `filter_image(strategy, true)` writes must
+        // reconstruct (reference decoder) to the image up to the colour under fully transparent pixels
+        if img.ct == 4 || img.ct == 6 {
+            alpha_kept_check(&img, strat, "generated", &mut st);
+        }
         if !ok {
             st.fail(
                 "roundtrip",
@@ -299,6 +376,13 @@ pub fn oracle(ctx: &mut Ctx) {
             if st.samples.len() < 3 {
                 st.sample(format!("strategy {} on {}", strat, img.to_line()));
             }
+        }
+    }
+    for _ in 0..(ctx.n / 3).max(20) {
+        let img = vertical_alpha_image(&mut rng);
+        for strat in [5u8, 6, 7, 8, 9, rng.below(5) as u8] {
+            st.count(&format!("alpha_strategy{}", strat));
+            alpha_kept_check(&img, strat, "column colours with transparent runs", &mut st);
         }
     }
     ctx.write_stats(&st);
